@@ -165,6 +165,27 @@ fn rich_inputs() -> Vec<String> {
         m.push_str(&format!("fragment cyc_{n} on Query {{ c {{ ...cyc_{} }} }}\n", names[(i + 1) % names.len()]));
     }
     v.push(m);
+    // several diagnostics at ONE source location (a stable sort by position keeps their emission
+    // order): a type declaring six interfaces, each implementing a further interface it does not
+    // declare and each requiring a field it does not have; an input object missing six required
+    // fields; a field with six unknown arguments
+    let mut one = String::from("type Query { q(i: Wide): Int }\n");
+    let mut decl = Vec::new();
+    for n in names {
+        one.push_str(&format!("interface Base_{n} {{ base_{n}: Int }}\ninterface Mid_{n} implements Base_{n} {{ base_{n}: Int mid_{n}: Int }}\n"));
+        decl.push(format!("Mid_{n}"));
+    }
+    one.push_str(&format!("type Narrow implements {} {{ own: Int }}\n", decl.join(" & ")));
+    one.push_str("input Wide {");
+    for n in names {
+        one.push_str(&format!(" req_{n}: Int!"));
+    }
+    one.push_str(" }\n{ q(i: {}) again: q(");
+    for n in names {
+        one.push_str(&format!("unknown_{n}: 1 "));
+    }
+    one.push_str(") }\n");
+    v.push(one);
     // many implementers and union members (valid; exercises introspection possibleTypes order)
     let mut p = String::from("interface Node { id: ID }\ntype Query { n: Node u: U }\n");
     let mut members = Vec::new();
@@ -206,12 +227,14 @@ fn input_list(seed: u64, n: usize, src: &TextSource) -> Vec<(String, String)> {
                     v.push(("model_mutant".into(), s));
                 }
             }
-            7 => {
+            7 if rng.bool() => {
                 let base = if diag.is_empty() { "{ a }".to_string() } else { rng.pick(&diag).text.clone() };
                 v.push(("corpus_mutant".into(), text::mutate_tokens(&mut rng, &base)));
             }
             _ => {
-                let nb = rng.range(32, 2048);
+                // mostly small inputs; one in five is large enough (8-16 KiB) for interface closures
+                // of several members and long implements lists
+                let nb = if rng.chance(1, 2) { rng.range(8192, 16384) } else { rng.range(32, 2048) };
                 let bytes = rng.bytes(nb);
                 v.push(("smith_bytes".into(), bytes.iter().map(|b| b.to_string()).collect::<Vec<_>>().join(",")));
             }
@@ -222,7 +245,7 @@ fn input_list(seed: u64, n: usize, src: &TextSource) -> Vec<(String, String)> {
 
 pub fn run(ctx: &mut Ctx) {
     let src = TextSource::new();
-    let n = if ctx.quick() { 400 } else { 5000 };
+    let n = if ctx.quick() { 5000 } else { 40000 };
     let inputs = input_list(ctx.seed, n, &src);
     let mut digests: Vec<Value> = Vec::new();
     let mut list_hash = 0u64;
